@@ -1,6 +1,5 @@
 INIT Init
 NEXT Next
-VIEW View
 CONSTANTS SizeMax = 15  Hdr = 4  MaxLive = 3  MaxOps = 5
 INVARIANT Disjoint
 INVARIANT Backed
